@@ -329,6 +329,10 @@ def job_water(job):
         job.validate("density_water_McCain", evalf(d, env), float(rw.density_water_McCain(env["T"], env["p"], env["S"])), inputs=env)
 
 
+from .c19 import job_facade_gas, replay_facade  # noqa: E402,F401  (replay_facade is looked up in this module by --replay)
+
+
 def jobs(tier):
     return [("gas-density", job_gas_density), ("gas-compressibility", job_gas_compressibility),
-            ("gas-viscosity", job_viscosity), ("oil-density", job_oil), ("water-density", job_water)]
+            ("gas-viscosity", job_viscosity), ("oil-density", job_oil), ("water-density", job_water),
+            ("gas-through-the-facade", job_facade_gas)]
